@@ -501,6 +501,15 @@ func (d *Daemon) worldIndex(id string) int {
 	return len(d.world.Containers)
 }
 
+// FaultsOff ends every injected fault: from now on the daemon answers faithfully.
+// Streams that are already open keep the fate they were given.
+func (d *Daemon) FaultsOff() {
+	d.mu.Lock()
+	d.faults = nil
+	d.cancelAt, d.ctxCancelAt = -1, -1
+	d.mu.Unlock()
+}
+
 // SetPhase labels the ContainerLogs calls that follow.
 func (d *Daemon) SetPhase(n int) {
 	d.mu.Lock()
